@@ -18,11 +18,11 @@ func init() {
 	register("C03",
 		"Structural necessary conditions of C03 decided from /repo's SSA: (order-flag) rev-list is run with one of --date-order/--topo-order/--author-date-order (no parent before all of its children); (reverse) the commit list is only appended in enumeration order, requested and read back by descending loops, and the reader compares each returned id with the list element of the same index; (no-silent-miss) the lookups of a parent's / tree's size panic when the size is absent instead of returning zero; (effects) per-commit depth = MAX over the parent list (exactly one MAX per parent, operand = the looked-up size of that parent) then +1 exactly once; max_history_depth = MAX of it; per-tag depth starts at 1 and adds the referent's depth only under referent type `tag`, identically in the immediate and the listener branch; max_tag_depth = MAX of it. Not decided: git's ordering guarantee itself, the equality with the longest chain on concrete DAGs.",
 		[]string{"git rev-list --date-order/--topo-order/--author-date-order never shows a parent before all of its children", "field-based heap model"},
-		ruleC03OrderFlag, ruleC03Reverse, ruleC03NoSilentMiss, ruleC03Effects, ruleC03FinalOnly)
+		ruleC03OrderFlag, ruleC03Reverse, ruleC03NoSilentMiss, ruleC03Effects, ruleC03FinalOnly, ruleC03KnownFinal)
 	register("C09",
 		"Structural necessary conditions of C09 decided from /repo's SSA: (siblings) at each Require{Tree,Tag}Size call site the size-affecting updates executed when the referent is already known equal, edge by edge and count by count, those executed by the deferred listener; (pending) the branch that registers a listener increments the record's pending counter exactly once and the immediate branch not at all, the listener decrements it exactly once and then calls the maybe-finalize step, initialisation ends in that step on every non-error path, and finalisation happens only under pending==0 followed by notification of every listener; (single-consumer) see C17.confinement. Not decided: invariance under root order, timestamps and storage layout (relations between runs).",
 		[]string{"field-based heap model", "listeners are invoked with the final size of the referent (C01.once)"},
-		ruleC09Siblings, ruleC09Pending, ruleC09FinalOnly, ruleC09Order, ruleC09Roots, ruleC09PendingWidth)
+		ruleC09Siblings, ruleC09Pending, ruleC09FinalOnly, ruleC09Order, ruleC09Roots, ruleC09PendingWidth, ruleC09Records, ruleC09EffectsBorrowed)
 }
 
 // ---------------- C02 ----------------
@@ -1042,4 +1042,143 @@ func ruleC02SizeSource(c *Ctx) {
 	c.RuleAlias = map[string]string{"C05.siblings": "C02.size-source"}
 	defer func() { c.RuleAlias = nil }()
 	ruleC05Siblings(c)
+}
+
+// ruleC09Records: the protocol between an object and the objects waiting
+// for it, whatever the delivery order.
+//   - known-final: Require*Size answers "known" only with the value found in
+//     the map of FINAL sizes (the map the finalizer writes); a record that
+//     exists but is still waiting for its own referents is not known.
+//   - published: a record created because nothing was found in the records
+//     map is stored in that map, so that a dependant arriving later finds it
+//     (and waits on it) instead of creating a second record nobody completes.
+func ruleC09Records(c *Ctx) { recordsProtocol(c, "C09.records") }
+
+// the known-final clause under C03's name (tag depth of a chain delivered
+// middle-first)
+func ruleC03KnownFinal(c *Ctx) {
+	c.RuleAlias = map[string]string{"C09.records": "C03.known-final"}
+	defer func() { c.RuleAlias = nil }()
+	recordsProtocol(c, "C09.records")
+}
+
+func recordsProtocol(c *Ctx, rule string) {
+	// the final-size maps: map fields written by the finalizers
+	finalMaps := map[*types.Var]bool{}
+	for _, fin := range c.finalizers() {
+		allInstrs(fin, func(in ssa.Instruction) {
+			if mu, ok := in.(*ssa.MapUpdate); ok {
+				if u, ok := mu.Map.(*ssa.UnOp); ok {
+					if fa, ok := u.X.(*ssa.FieldAddr); ok {
+						finalMaps[fieldOfAddr(fa).Var] = true
+					}
+				}
+			}
+		})
+	}
+	mapField := func(v ssa.Value) *types.Var {
+		if u, ok := v.(*ssa.UnOp); ok {
+			if fa, ok := u.X.(*ssa.FieldAddr); ok {
+				return fieldOfAddr(fa).Var
+			}
+		}
+		return nil
+	}
+	nKnown := 0
+	seenFn := map[*ssa.Function]bool{}
+	for _, rs := range c.requireSites() {
+		f := rs.Call.Call.StaticCallee()
+		if f == nil || seenFn[f] {
+			continue
+		}
+		seenFn[f] = true
+		name := fnName(f)
+		bad := ""
+		for _, ret := range returnsOf(f) {
+			if len(ret.Results) != 2 {
+				continue
+			}
+			okV := c.resolve(ret.Results[1])
+			sizeV := c.resolve(ret.Results[0])
+			fromFinal := func() bool {
+				ex, ok := sizeV.(*ssa.Extract)
+				if !ok || ex.Index != 0 {
+					return false
+				}
+				lk, ok := ex.Tuple.(*ssa.Lookup)
+				return ok && lk.CommaOk && finalMaps[mapField(lk.X)]
+			}
+			if k, isConst := okV.(*ssa.Const); isConst {
+				if k.Value != nil && k.Value.String() == "true" && !fromFinal() {
+					bad = "a return answers `known` with a value that was not found in the map of final sizes (" + c.pos(ret.Pos()) + ")"
+				}
+				continue
+			}
+			// `return size, ok` of one lookup
+			if ex, ok := okV.(*ssa.Extract); ok && ex.Index == 1 {
+				if lk, ok := ex.Tuple.(*ssa.Lookup); ok && finalMaps[mapField(lk.X)] && fromFinal() {
+					continue
+				}
+			}
+			bad = "a return answers with a computed `known` flag (" + c.pos(ret.Pos()) + ")"
+		}
+		nKnown++
+		if bad == "" {
+			c.hold(rule, "known-final:"+name, f.Pos(), "`known` is answered only with the entry of the final-sizes map")
+		} else {
+			c.violate(rule, "known-final:"+name, f.Pos(), name, bad+": a dependant delivered while its referent is still waiting for its own referents would be finalised from a partial size — the result would depend on the delivery order")
+		}
+	}
+	if nKnown < 2 {
+		c.notDecided(rule, "known-final", token.NoPos, fmt.Sprintf("%d Require*Size functions found", nKnown))
+	}
+	// published: every record constructor result is stored into a map
+	nPub := 0
+	for _, f := range c.ModFns {
+		if pkgOf(f) != modPath+"/sizes" {
+			continue
+		}
+		allInstrs(f, func(in ssa.Instruction) {
+			call, ok := in.(*ssa.Call)
+			if !ok {
+				return
+			}
+			cal := call.Call.StaticCallee()
+			if cal == nil || !c.inRuleScope(cal) || cal.Signature.Results().Len() != 1 {
+				return
+			}
+			rt := cal.Signature.Results().At(0).Type()
+			if !isPtrToNamed(rt, modPath+"/sizes", "treeRecord") && !isPtrToNamed(rt, modPath+"/sizes", "tagRecord") {
+				return
+			}
+			if f.Signature.Recv() == nil || !isPtrToNamed(f.Signature.Recv().Type(), modPath+"/sizes", "Graph") {
+				return
+			}
+			nPub++
+			stored := false
+			for _, r := range *call.Referrers() {
+				if mu, ok := r.(*ssa.MapUpdate); ok && mu.Value == ssa.Value(call) && (mu.Block() == call.Block() || call.Block().Dominates(mu.Block())) {
+					stored = true
+				}
+			}
+			key := "published:" + fnName(f)
+			if stored {
+				c.hold(rule, key, call.Pos(), "the new record is entered in the records map")
+			} else {
+				c.violate(rule, key, call.Pos(), fnName(f), "a new record is created but not entered in the records map: a dependant delivered before this object is complete creates a second record that is never completed, so the dependant is never counted — the result depends on the delivery order")
+			}
+		})
+	}
+	if nPub < 4 {
+		c.notDecided(rule, "published", token.NoPos, fmt.Sprintf("%d record creations found in the Graph methods (Register/Require × tree/tag expected)", nPub))
+	}
+}
+
+// ruleC09EffectsBorrowed: a history-wide maximum must be MAX-accumulated,
+// never assigned from "the object processed last": that is C03's effect
+// table, read here as independence from the enumeration order.
+func ruleC09EffectsBorrowed(c *Ctx) {
+	c.RuleAlias = map[string]string{"C03.effects": "C09.effects"}
+	defer func() { c.RuleAlias = nil }()
+	ruleC03Effects(c)
 }
